@@ -1,5 +1,5 @@
 (* Props/C19.v — cancelling a pending async read loses nothing. *)
-Require Import Base.Bytes Net.Frame Net.Framed Net.FramedProofs Net.Async Net.AsyncProofs Net.AsyncRefines Net.Concrete.
+Require Import Base.Bytes Net.Frame Net.Framed Net.FramedProofs Net.Async Net.AsyncProofs Net.AsyncRefines Net.Concrete Net.AsyncConvProofs.
 Local Open Scope N_scope.
 
 (* For every packet layer, mode, transport script (data in any segmentation, transient errors,
@@ -73,6 +73,29 @@ Theorem c19_reply_state_in_future_refuted :
       = snd (fst (fst (legacy_after_keepalive tpacket [1;3;0;0] q rest [WAccept 0; WPending]))) /\
     legacy_resume_pong tpacket p [3;0;0] [] = (Some (RPacket p), LTop tpacket, [], [3;0;0]).
 Proof. intros p q rest. vm_compute. auto. Qed.
+
+(* conversations: the caller also writes between reads.  Without writes a conversation is the session above *)
+Theorem c19_conversation_without_writes_is_the_session :
+  forall (packet : Type) (parse : bytes -> res packet) (ver_of : packet -> option N)
+         (is_keepalive : packet -> bool) (version : N) (m : mode) (verify : bool) (pong : bytes),
+  forall fuel c s rs ws cancels acc,
+    flat_map (out_of packet) (aconv packet parse ver_of is_keepalive version m verify pong fuel c s rs ws cancels [] acc)
+    = asession packet parse ver_of is_keepalive version m verify pong fuel c s rs ws cancels acc.
+Proof. exact aconv_no_writes. Qed.
+
+(* with writes: whatever is dropped and whenever the caller writes, no partial frame is left on the outgoing
+   side (a write() completes an outstanding reply first), and the keep-alive whose reply a write() completed is
+   still the next packet returned (a result other than that keep-alive is impossible while reply bytes are
+   accounted for: conv_ok demands done = [] there) *)
+Theorem c19_conversation_wire_is_whole_frames :
+  forall (packet : Type) (parse : bytes -> res packet) (ver_of : packet -> option N)
+         (is_keepalive : packet -> bool) (version : N) (m : mode) (verify : bool) (pong : bytes),
+  forall fuel c s rs ws cancels wsched acc done,
+    forallb no_fail ws = true ->
+    Inv packet parse ver_of is_keepalive version m verify pong c s ->
+    WInv packet is_keepalive pong s (done ++ acc) ->
+    conv_ok packet is_keepalive pong done (aconv packet parse ver_of is_keepalive version m verify pong fuel c s rs ws cancels wsched acc).
+Proof. exact aconv_ok. Qed.
 
 (* non-vacuity: the future is dropped while the keep-alive reply is half written and again while waiting for data *)
 Example c19_example :
